@@ -34,6 +34,66 @@ def handleFront (j : Json) : Json :=
     out.setObjVal! "memo_agrees" (Json.bool (toString (repr r) == toString (repr r2)))
   else out
 
+open Gly.Api in
+def decodeInput (j : Json) : Input :=
+  match (j.getObjValAs? String "s").toOption with
+  | some s => .str s.toList
+  | none => .other 0
+
+open Gly.Api in
+def decodeInputs (j : Json) (k : String) : Option (List Input) :=
+  match j.getObjVal? k with
+  | .ok (Json.arr a) => some (a.toList.map decodeInput)
+  | _ => none
+
+open Gly.Api in
+def handleConvert (j : Json) : Json :=
+  let convTbl : List (String × String) := match j.getObjVal? "conv" with
+    | .ok (Json.obj kvs) => kvs.toList.filterMap (fun (k, v) => match v with | Json.str s => some (k, s) | _ => none)
+    | _ => []
+  let conv : Input → Outcome := fun g => match g with
+    | .str s => match convTbl.lookup (String.ofList s) with
+      | some r => .smiles r.toList
+      | none => .raisesParse
+    | .other _ => .raisesParse
+  let single := (decodeInputs j "single").bind List.head?
+  let list := decodeInputs j "list"
+  let file := decodeInputs j "file"
+  let gen := decodeInputs j "gen"
+  let genFn := (j.getObjValAs? Bool "gen_fn").toOption.getD false
+  let w : World := ⟨false, [], []⟩
+  let pairs : Option (List Pair) :=
+    if genFn then some (convertGenerator conv single list file gen .level w).1
+    else match (convert (fun f xs => xs.map f) conv single list file gen .returning .level w).1 with
+      | .list ps => some ps
+      | .nothing => none
+  let enc (p : Pair) : Json := Json.arr #[(match p.1 with | .str s => Json.str (String.ofList s) | .other _ => Json.null), Json.str (String.ofList p.2)]
+  match pairs with
+  | some ps => Json.mkObj [("pairs", Json.arr (ps.map enc).toArray)]
+  | none => Json.mkObj [("pairs", Json.arr #[]), ("none", Json.bool true)]
+
+open Gly.Api in
+def handleCli (j : Json) : Json :=
+  let args : List Arg := match j.getObjVal? "args" with
+    | .ok (Json.arr a) => a.toList.map (fun x => match x.getObjVal? "file" with
+        | .ok (Json.arr ls) => Arg.file (ls.toList.map (fun l => match l with | Json.str s => s.toList | _ => []))
+        | _ => match x with | Json.str s => Arg.lit s.toList | _ => Arg.lit [])
+    | _ => []
+  let convTbl : List (String × String) := match j.getObjVal? "conv" with
+    | .ok (Json.obj kvs) => kvs.toList.filterMap (fun (k, v) => match v with | Json.str s => some (k, s) | _ => none)
+    | _ => []
+  let conv : Input → Outcome := fun g => match g with
+    | .str s => match convTbl.lookup (String.ofList s) with | some r => .smiles r.toList | none => .raisesParse
+    | .other _ => .raisesParse
+  match cliOutput conv args with
+  | none => Json.mkObj [("lines", Json.null)]
+  | some ls => Json.mkObj [("lines", Json.arr (ls.map (fun l => Json.str (String.ofList l))).toArray)]
+
+def handleGate (j : Json) : Json :=
+  let b (k : String) := (j.getObjValAs? Bool k).toOption.getD false
+  let s := (j.getObjValAs? String "assembled").toOption.getD ""
+  Json.mkObj [("released", Json.str (String.ofList (Gly.Api.gate (b "tree_only") (b "full") (b "tree_full") s.toList)))]
+
 def handle (line : String) : Json :=
   match Json.parse line with
   | .error e => Json.mkObj [("error", Json.str e)]
@@ -45,6 +105,9 @@ def handle (line : String) : Json :=
       let r := Model.front Model.walkCfgTreeOnly true s.toList
       Json.mkObj [("accepts", Json.bool (match r with | .ok _ => true | _ => false)),
                   ("verdict", match r with | .ok _ => "ok" | .lexError => "lex-error" | .parseError => "parse-error" | .shapeError => "shape-error")]
+    | some "convert" => handleConvert j
+    | some "cli" => handleCli j
+    | some "gate" => handleGate j
     | some "ping" => Json.mkObj [("pong", Json.bool true)]
     | _ => Json.mkObj [("error", "unknown op")]
 
